@@ -26,6 +26,10 @@ pub struct OracleState {
     pub rolled_back: BTreeSet<(usize, usize, u64)>,
     pub twins: BTreeMap<(usize, usize), Twin>,
     pub at_write: BTreeMap<(usize, usize), Vec<(&'static str, Vec<u8>)>>,
+    pub leftmost_checked: BTreeSet<(usize, u64)>,
+    pub fresh_checked: BTreeSet<(usize, u64)>,
+    pub commit_has_path: BTreeMap<u64, bool>,
+    pub old_leaf_keys: BTreeMap<(usize, usize), (Vec<u8>, u64)>,
 }
 
 #[derive(Default)]
@@ -614,7 +618,65 @@ pub fn leaf_ext_list(v: u8) -> ExtensionList {
 
 pub fn clear_modifiers() {}
 
-pub fn on_epoch(_w: &mut World, _p: usize, _g: usize, _how: &str) -> VResult<()> {
+pub fn on_epoch(w: &mut World, p: usize, g: usize, how: &str) -> VResult<()> {
+    crate::treeor::c08_on_epoch(w, p, g, how)?;
+    crate::treeor::c09_on_epoch(w, p, g, how)?;
+    Ok(())
+}
+
+/// C02 oracle B: a party that was removed keeps its old group object; every message of a later epoch fed to it
+/// must be rejected and must not move it
+pub fn feed_removed(w: &mut World, g: usize, id: u64) -> VResult<()> {
+    if !w.cfg.oracle("removed-cannot-follow") {
+        return Ok(());
+    }
+    let prop = w.cfg.property.clone();
+    let msg = w.msgs[&id].clone();
+    let now = w.now();
+    for q in 0..w.parties.len() {
+        let Some(obj) = w.parties[q].mems.get(g).and_then(|m| m.removed_obj.clone()) else {
+            continue;
+        };
+        let e0 = obj.current_epoch();
+        if msg.epoch <= e0 {
+            continue;
+        }
+        let mut obj = obj;
+        let bytes = msg.bytes.clone();
+        let r = guarded(&prop, "process_incoming_message(removed member)", || {
+            obj.process_incoming_message_with_time(MlsMessage::from_bytes(&bytes)?, now)
+        })?;
+        w.stats.check("removed-member-cannot-process");
+        if r.is_ok() || obj.current_epoch() != e0 {
+            return Err(Violation::new(
+                &prop,
+                "removed-cannot-follow",
+                format!("removed-member-processed:{:?}", msg.kind),
+                format!(
+                    "P{q}, removed from g{g} after epoch {e0}, processed {:?} message {id} of epoch {} (result ok = {}, its epoch is now {})",
+                    msg.kind,
+                    msg.epoch,
+                    r.is_ok(),
+                    obj.current_epoch()
+                ),
+            ));
+        }
+        *w.stats.probes.entry(format!("removed-rejects:{:?}", msg.kind)).or_default() += 1;
+        // it must not know any later epoch authenticator
+        if let Ok(a) = obj.epoch_authenticator() {
+            for (e, rec) in w.groups[g].records.range(e0 + 1..) {
+                if rec.auth == a.as_bytes() {
+                    return Err(Violation::new(
+                        &prop,
+                        "removed-cannot-follow",
+                        "removed-member-knows-later-authenticator".into(),
+                        format!("P{q}, removed after epoch {e0}, holds the epoch authenticator of epoch {e}"),
+                    ));
+                }
+            }
+        }
+        w.parties[q].mems[g].removed_obj = Some(obj);
+    }
     Ok(())
 }
 
@@ -992,6 +1054,10 @@ pub fn after_commit_built(
     pre: Pre,
     _out: &CommitOutput,
 ) -> VResult<()> {
+    if w.cfg.oracle("recipients") {
+        let events = crate::crypto::rec_take_events();
+        crate::treeor::c02_after_commit_built(w, p, g, id, events)?;
+    }
     if !w.cfg.oracle("pending-model") {
         return Ok(());
     }
@@ -1057,8 +1123,8 @@ pub fn on_wire(_w: &mut World, _bytes: &[u8], _kind: &str) -> VResult<()> {
     Ok(())
 }
 
-pub fn after_sent(_w: &mut World, _p: usize, _g: usize, _id: u64) -> VResult<()> {
-    Ok(())
+pub fn after_sent(w: &mut World, _p: usize, g: usize, id: u64) -> VResult<()> {
+    feed_removed(w, g, id)
 }
 
 pub fn after_join(w: &mut World, p: usize, g: usize, _how: &str) -> VResult<()> {
